@@ -384,6 +384,12 @@ fn gen_c13(cfg: &GenCfg, rng: &mut Rng, w: &mut dyn Write, kind: &str) {
 }
 
 fn gen_c12(cfg: &GenCfg, rng: &mut Rng, w: &mut dyn Write, kind: &str) {
+    if !zbdd(kind) {
+        // the count cache's epoch protocol while a large collection runs on another thread
+        writeln!(w, "case c12-satrace-{}", kind).unwrap();
+        writeln!(w, "mgr nodes=4194304 cache=4096 threads=1 vars=32").unwrap();
+        writeln!(w, "satrace 16 {}", if cfg.thorough { 12 } else { 4 }).unwrap();
+    }
     let n = 3u32;
     let nf = 1u64 << (1 << n);
     let orders = perms(n);
@@ -1032,6 +1038,45 @@ fn gen_c08(cfg: &GenCfg, rng: &mut Rng, w: &mut dyn Write, kind: &str) {
             }
         }
     }
+    // a big store (>= 2^19 nodes, so that also the manager's lagging approximate count is over the
+    // 65536 threshold) on a manager with worker threads: `set_var_order` takes its concurrent path
+    // (parallel swaps, parallel write-back of the level numbers). Variable 0 is declared but unused,
+    // so the first reordering moves a non-empty level into the position of an empty one. Only
+    // adjacent pairs are exchanged (no size explosion).
+    if kind == "bdd" || cfg.thorough {
+        let n = 18u32;
+        writeln!(w, "case c08-big-concurrent").unwrap();
+        writeln!(w, "mgr nodes=8388608 cache=65536 threads=4 vars={}", n).unwrap();
+        writeln!(w, "ballast {} {} 1 {}", if cfg.thorough { 900000 } else { 560000 }, rng.below(1 << 30), n).unwrap();
+        let mut pool: Vec<String> = Vec::new();
+        for v in 1..n {
+            writeln!(w, "var x{} {}", v, v).unwrap();
+            pool.push(format!("x{v}"));
+        }
+        // (truth tables over 18 variables are big: only a few tracked handles)
+        for v in 1..n {
+            if v % 3 != 1 {
+                writeln!(w, "drop x{}", v).unwrap();
+            }
+        }
+        pool.retain(|h| h[1..].parse::<u32>().unwrap() % 3 == 1);
+        for s in 0..6 {
+            let name = format!("g{s}");
+            writeln!(w, "op {} {} {} {}", name, rng.pick(&BIN_OPS), rng.pick(&pool), rng.pick(&pool)).unwrap();
+            pool.push(name);
+        }
+        writeln!(w, "nodes").unwrap();
+        let pairs: &[(u32, u32)] = if cfg.thorough { &[(1, 0), (6, 5), (17, 16), (3, 2), (0, 1)] } else { &[(1, 0), (17, 16)] };
+        for (a, b) in pairs {
+            writeln!(w, "order {} {}", a, b).unwrap();
+            for h in &pool {
+                writeln!(w, "show {}", h).unwrap();
+            }
+        }
+        writeln!(w, "audit").unwrap();
+        writeln!(w, "op q0 {} {} {}", rng.pick(&BIN_OPS), rng.pick(&pool), rng.pick(&pool)).unwrap();
+        writeln!(w, "dropballast").unwrap();
+    }
     // many threads with >= 65536 nodes: this is what switches on the concurrent bubble sort
     if cfg.thorough {
         let n = 12u32;
@@ -1183,6 +1228,12 @@ fn gen_c07(cfg: &GenCfg, rng: &mut Rng, w: &mut dyn Write, kind: &str) {
         for i in 0..(if cfg.thorough { 3 } else { 1 }) {
             gc_race_case(cfg, rng, w, kind, i);
         }
+    }
+    if !zbdd(kind) {
+        // a model-count cache kept across a large collection running on another thread
+        writeln!(w, "case c07-satrace-{}", kind).unwrap();
+        writeln!(w, "mgr nodes=4194304 cache=4096 threads=1 vars=32").unwrap();
+        writeln!(w, "satrace 16 {}", if cfg.thorough { 12 } else { 4 }).unwrap();
     }
     let z = zbdd(kind);
     let quants = ["forall", "exists", "unique"];
@@ -1572,7 +1623,15 @@ fn generate(cfg: &GenCfg, rng: &mut Rng, w: &mut dyn Write) {
         // reordering, garbage included
         let mut buf: Vec<u8> = Vec::new();
         generate_inner(cfg, rng, &mut buf);
+        let mut skip = false;
         for line in String::from_utf8(buf).unwrap().lines() {
+            if line.starts_with("case ") {
+                // the ballast of the big concurrent case is not part of the store-level model
+                skip = line.contains("big-concurrent");
+            }
+            if skip {
+                continue;
+            }
             if line.starts_with("satcount ") {
                 continue; // not part of the store-level reordering protocol
             }
